@@ -335,7 +335,7 @@ func visitAST(node *sitter.Node, sourceCode []byte, graph *CodeGraph, currentCon
 	case "do_statement":
 		doWhileNode := model.DoStmt{}
 		// get the condition of the while statement
-		conditionNode := node.Child(2)
+		conditionNode := node.ChildByFieldName("condition")
 		if conditionNode != nil {
 			doWhileNode.Condition = &model.Expr{Node: *conditionNode, NodeString: conditionNode.Content(sourceCode)}
 		}
